@@ -178,8 +178,24 @@ pub fn mamba_to_python(
     let asts: Vec<AST> = asts.into_iter().map(Result::unwrap).collect();
     trace!("Parsed {} files", asts.len());
 
-    let ctx = Context::try_from(asts.as_ref())
-        .map_err(|errs| errs.iter().map(|e| format!("{e}")).collect::<Vec<String>>())?;
+    let ctx = Context::try_from(asts.as_ref()).map_err(|errs| {
+        // Errors of the context do not know their file, look for the files which cause these
+        let mut errs_with_source = vec![];
+        for (ast, (src, path)) in asts.iter().zip(&source) {
+            if let Err(errs) = Context::try_from(std::slice::from_ref(ast)) {
+                errs.iter().for_each(|err| {
+                    let err = err.clone().with_source(&Some(src.clone()), &path.clone());
+                    errs_with_source.push(format!("{err}"));
+                });
+            }
+        }
+
+        if errs_with_source.is_empty() {
+            errs.iter().map(|e| format!("{e}")).collect::<Vec<String>>()
+        } else {
+            errs_with_source
+        }
+    })?;
     let (typed_ast, type_errs): (Vec<_>, Vec<_>) = asts
         .iter()
         .zip(&source)
